@@ -1,13 +1,13 @@
 CONSTANTS
   MaxObj = 3
   MaxSteps = 5
-  CreateClasses = {"Mid","Leaf","DD"}
-  QueryClasses = {"Base","Mid","DA","DB1"}
-  AllowClear = TRUE
+  CreateClasses = {"Mid","Leaf"}
+  QueryClasses = {"Base","Mid"}
+  AllowClear = FALSE
   AllowRelate = FALSE
   AllowQueryX = FALSE
   AllowSweep = FALSE
-  AllowDeclare = FALSE
+  AllowDeclare = TRUE
   CopyModes = {}
   UnregisteredModes = {}
   Hist = TRUE
